@@ -3,12 +3,12 @@
 into /verif/seeded/<ID>-m<k>/ resp. /verif/seeded/<ID>-r2-m<k>/ ."""
 import json, os, shutil, sys, glob
 DET = json.load(open('/verif/tools/seeded_detection.json'))
-for d in sorted(glob.glob('/tmp/mut-c*/m*') + glob.glob('/tmp/mut2-c*/m*')):
+for d in sorted(glob.glob('/tmp/mut-c*/m*') + glob.glob('/tmp/mut2-c*/m*') + glob.glob('/tmp/mut3-c*/m*')):
     base = os.path.basename(os.path.dirname(d))
-    r2 = base.startswith('mut2-')
-    pid = base.replace('mut2-','').replace('mut-','').upper()
+    rnd = 3 if base.startswith('mut3-') else 2 if base.startswith('mut2-') else 1
+    pid = base.replace('mut3-','').replace('mut2-','').replace('mut-','').upper()
     k = os.path.basename(d)
-    key = f'{pid}-r2-{k}' if r2 else f'{pid}-{k}'
+    key = f'{pid}-{k}' if rnd == 1 else f'{pid}-r{rnd}-{k}'
     vf = os.path.join(d,'verified.json')
     if not os.path.exists(vf): continue
     v = json.load(open(vf))
